@@ -32,6 +32,33 @@ def discharge(ob, timeout_ms=10000, cli_fallback=True):
   """unsat => proved; sat => counter-model (only trusted from the in-process solver, and
   re-validated by replay); unknown => undecided."""
   t0 = time.time()
+  # pass 1: pure E-matching (no model-based quantifier instantiation): proofs by instantiation of
+  # the invariants come out in milliseconds here, and "unknown" comes back quickly otherwise.
+  s1 = z3.Solver()
+  s1.set("timeout", min(timeout_ms, 2000))
+  s1.set("smt.mbqi", False)
+  s1.set("smt.auto_config", False)
+  s1.add(*ob.assumptions)
+  s1.add(z3.Not(ob.goal))
+  if s1.check() == z3.unsat:
+    return Result("unsat", "z3-%s(ematching)" % z3.get_version_string(), time.time() - t0)
+  # pass 2: leave-one-out over the quantified assumptions.  Dropping an assumption can only make
+  # the query weaker, so an `unsat` here is still a proof of the obligation; it removes the
+  # instantiation noise (matching loops) that made the full query diverge.
+  quant = [i for i, a in enumerate(ob.assumptions) if _has_quantifier(a)]
+  if 1 < len(quant) <= 24:
+    for i in reversed(quant):
+      rest = ob.assumptions[:i] + ob.assumptions[i + 1:]
+      for mbqi in (False,):
+        s3 = z3.Solver()
+        s3.set("timeout", 1000)
+        if not mbqi:
+          s3.set("smt.mbqi", False); s3.set("smt.auto_config", False)
+        s3.add(*rest)
+        s3.add(z3.Not(ob.goal))
+        if s3.check() == z3.unsat:
+          return Result("unsat", "z3-%s(leave-one-out)" % z3.get_version_string(),
+                        time.time() - t0)
   s = z3.Solver()
   s.set("timeout", timeout_ms)
   s.add(*ob.assumptions)
@@ -57,6 +84,18 @@ def discharge(ob, timeout_ms=10000, cli_fallback=True):
         # a model from the CLI is not reconstructed: report as sat without model
         return Result("sat", name, time.time() - t0, None, "sat from CLI back end (no model)")
   return Result("unknown", "z3-%s" % z3.get_version_string(), time.time() - t0, None, reason)
+
+
+def _has_quantifier(t):
+  seen = set()
+  stack = [t]
+  while stack:
+    x = stack.pop()
+    if x.get_id() in seen: continue
+    seen.add(x.get_id())
+    if z3.is_quantifier(x): return True
+    stack.extend(x.children())
+  return False
 
 
 def satisfiable(assumptions, timeout_ms=3000):
